@@ -19,6 +19,7 @@ type M = map[string]any
 type Batch struct {
 	lines  [][]byte
 	starts []int // index into lines of each reset line
+	resets []M   // the reset records (re-marshalled with "end" by Bytes)
 }
 
 func (b *Batch) Len() int   { return len(b.starts) }
@@ -28,6 +29,7 @@ func (b *Batch) Lines() int { return len(b.lines) }
 func (b *Batch) Start(reset M) int {
 	reset["ev"] = "reset"
 	b.starts = append(b.starts, len(b.lines))
+	b.resets = append(b.resets, reset)
 	b.add(reset)
 	return len(b.starts) - 1
 }
@@ -54,6 +56,9 @@ func (b *Batch) Ev(name string, m M) {
 // AppendTrace appends a whole pre-recorded trace (first line must be a reset).
 func (b *Batch) AppendTrace(lines [][]byte) int {
 	b.starts = append(b.starts, len(b.lines))
+	var m M
+	_ = json.Unmarshal(lines[0], &m)
+	b.resets = append(b.resets, m)
 	b.lines = append(b.lines, lines...)
 	return len(b.starts) - 1
 }
@@ -77,6 +82,18 @@ func (b *Batch) TraceStrings(i int) []string {
 
 func (b *Batch) Bytes() []byte {
 	var buf bytes.Buffer
+	// every reset line carries "end": the 1-based line number of its trace's last event
+	for i, st := range b.starts {
+		end := len(b.lines)
+		if i+1 < len(b.starts) {
+			end = b.starts[i+1]
+		}
+		if b.resets[i] != nil {
+			b.resets[i]["end"] = end
+			j, _ := json.Marshal(b.resets[i])
+			b.lines[st] = bytes.ReplaceAll(j, []byte(":null"), []byte(`:"null"`))
+		}
+	}
 	for _, l := range b.lines {
 		buf.Write(l)
 		buf.WriteByte('\n')
@@ -172,4 +189,34 @@ func Validate(o tlc.Opts, b *Batch) ([]Reject, tlc.Result) {
 		return rs, res
 	}
 	return nil, res
+}
+
+var reDone = regexp.MustCompile(`(?m)^<<"DONE", (\d+)>>`)
+
+// ValidateDone runs TLC over a batch against a (possibly nondeterministic)
+// trace spec that prints <<"DONE", tr>> when a behaviour consumed all of the
+// trace starting at line tr.  It returns the indices of traces never completed.
+func ValidateDone(o tlc.Opts, b *Batch) ([]int, tlc.Result) {
+	if o.Files == nil {
+		o.Files = map[string][]byte{}
+	}
+	o.Files["trace.ndjson"] = b.Bytes()
+	o.Args = append(o.Args, "-noGenerateSpecTE")
+	res := tlc.Run(o)
+	if !res.OK {
+		return nil, res
+	}
+	done := map[int]bool{}
+	for _, m := range reDone.FindAllStringSubmatch(res.Output, -1) {
+		l, _ := strconv.Atoi(m[1])
+		tr, _ := b.traceOfLine(l)
+		done[tr] = true
+	}
+	var missing []int
+	for i := range b.starts {
+		if !done[i] {
+			missing = append(missing, i)
+		}
+	}
+	return missing, res
 }
